@@ -174,9 +174,9 @@ def second_pass(ctx, cands):
 
 
 def run(ctx, replay_case=None):
-    consts = {"MaxLen": 4, "Len16": ctx.pick(4, 5), "WsLen": ctx.pick(5, 6), "GenLen": ctx.pick(3, 4), "GenWs": ctx.pick(4, 5),
+    consts = {"MaxLen": 4, "Len16": ctx.pick(4, 5), "WsLen": ctx.pick(5, 6), "GenLen": ctx.pick(3, 4), "GenWs": ctx.pick(3, 5),
               "GenCore": ctx.pick(3, 5)}
-    extra = ctx.pick(600, 8000)
+    extra = ctx.pick(400, 8000)
     phase, t0 = {}, time.time()
 
     def lap(name):
@@ -220,7 +220,7 @@ def run(ctx, replay_case=None):
                 c["pl"] = CORE
     allc.sort(key=lambda c: c["id"])
     weight = lambda c: len(c.get("pl") or ALLPL)
-    per = ctx.pick(12000, 120000)          # records per shard
+    per = ctx.pick(9000, 120000)          # records per shard
     parts, cur, w = [], [], 0
     for c in allc:
         cur.append(c)
